@@ -6,7 +6,6 @@ import (
 	"strings"
 
 	"verif/harness/internal/canon"
-	"verif/harness/internal/model"
 )
 
 // splitShow renders generic data canonically for comparisons in which
@@ -18,28 +17,35 @@ import (
 // once the node is reified as a map and are dropped). Leaves are rendered by
 // canon (numbers by value), so two values are canonically equal iff their
 // renderings are equal.
-func splitShow(v interface{}) string {
+func splitShow(v interface{}) string { return OptSet{}.show(v) }
+
+func splitEqual(a, b interface{}) bool { return splitShow(a) == splitShow(b) }
+
+// show is splitShow under the key classification of the option set: which
+// keys of a map address the list part depends on MaxIdx, and with numeric
+// keys enabled none does.
+func (o OptSet) show(v interface{}) string {
 	var b strings.Builder
-	splitRender(&b, splitNorm(canon.Of(v)))
+	splitRender(&b, splitNorm(canon.Of(v), o.resultIdx))
 	return b.String()
 }
 
-func splitEqual(a, b interface{}) bool { return splitShow(a) == splitShow(b) }
+func (o OptSet) equal(a, b interface{}) bool { return o.show(a) == o.show(b) }
 
 type splitNode struct {
 	named map[string]interface{}
 	list  []interface{}
 }
 
-func splitNorm(v interface{}) interface{} {
+func splitNorm(v interface{}, index func(string) (int, bool)) interface{} {
 	n := &splitNode{named: map[string]interface{}{}}
 	switch x := v.(type) {
 	case map[string]interface{}:
 		idx := map[int]interface{}{}
 		max := -1
 		for k, e := range x {
-			ne := splitNorm(e)
-			if i, ok := model.IndexOf(k, 1024); ok {
+			ne := splitNorm(e, index)
+			if i, ok := index(k); ok {
 				if old, dup := idx[i]; dup && old != nil {
 					// two spellings of one index in one map ("1", "01"): keep both visible
 					n.named[k] = ne
@@ -60,7 +66,7 @@ func splitNorm(v interface{}) interface{} {
 		}
 	case []interface{}:
 		for _, e := range x {
-			n.list = append(n.list, splitNorm(e))
+			n.list = append(n.list, splitNorm(e, index))
 		}
 	default:
 		return v
